@@ -9,7 +9,7 @@ use std::io::Cursor;
 
 pub const META: PropMeta = PropMeta {
     level: "exploration",
-    rule: "stateful generation: movie config, 1..5 track configs of every media kind, then a vec of write_sample ops (valid or with a bad track id), finished by write_end; interpreted against Mp4Writer over an in-memory cursor; oracle = per-track model of accepted samples compared with what Mp4Reader reads back (bytes, duration, rendering offset, sync, start time, count, ids past the end), rejected calls must return Err and leave the output byte-identical to the history without them. Small scope: every history of <=3 (thorough 4) ops over 2 tracks with per-op alphabet size{0,3} x dur{0,ts/2,ts} x cts{0,-1} x sync{0,1}. Non-trivial = >=3 accepted samples and at least one of: a track with >=2 chunks, >=2 tracks interleaved, a size change after >=2 equal sizes, first non-zero cts at index>=2, a non-sync sample, a zero-length sample, a rejected call. Distinct = hash of the whole history.",
+    rule: "stateful generation: movie config, 1..5 track configs of every media kind, then a vec of write_sample ops (valid or with a bad track id), finished by write_end; interpreted against Mp4Writer over an in-memory cursor (one history in ~15: over a legal sink that takes only 1..40 bytes per write call); sample sizes include an occasional 64 KiB..200 KB sample; configurations add_track must refuse are interleaved; oracle = per-track model of accepted samples compared with what Mp4Reader reads back (bytes, duration, rendering offset, sync, start time, count, ids past the end), rejected calls must return Err and leave the output byte-identical to the history without them. Small scope: every history of <=3 (thorough 4) ops over 2 tracks with per-op alphabet size{0,3} x dur{0,ts/2,ts} x cts{0,-1} x sync{0,1}. Non-trivial = >=3 accepted samples and at least one of: a track with >=2 chunks, >=2 tracks interleaved, a size change after >=2 equal sizes, first non-zero cts at index>=2, a non-sync sample, a zero-length sample, a rejected call. Distinct = hash of the whole history.",
     assumptions: &["Mp4Reader is used to read back (it is the subject of C03, checked independently against the reference encoder)", "histories keep every track duration in movie ticks below 2^62 (larger ones are not representable in ISO-BMFF; C17 covers them for panic-freedom)"],
 };
 
@@ -143,6 +143,9 @@ pub fn check_readback(case: &MuxCase, run: &MuxRun<Cursor<Vec<u8>>>, bytes: &[u8
 }
 
 pub fn oracle(ctx: &mut Ctx, case: &MuxCase) -> Check {
+    if case.sink != 0 {
+        ctx.count("sink:short-writes");
+    }
     let (run, bytes) = mux::run_mux_vec(case);
     if let Some(f) = mux::first_panic(&run) {
         return Err(f);
@@ -232,7 +235,7 @@ pub fn run_histories(ctx: &mut Ctx, oracle: fn(&mut Ctx, &MuxCase) -> Check) {
                 ops.push(alphabet[(c % a) as usize].clone());
                 c /= a;
             }
-            let case = MuxCase { major: *b"isom", minor: 512, compat: vec![*b"isom"], timescale: 3, tracks: enum_tracks(), ops };
+            let case = MuxCase { major: *b"isom", minor: 512, compat: vec![*b"isom"], timescale: 3, tracks: enum_tracks(), ops, sink: if my % 11 == 4 { 1 + (my % 9) as u16 } else { 0 } };
             let res = oracle(ctx, &case);
             ctx.judge(&case, res);
         }
